@@ -109,7 +109,7 @@ def site_orders(ctx, name, driver, progs, sites, max_exec=12):
     return tab, missing
 
 
-def ord_module(spec, tab):
+def ord_module(spec, tab, extra=''):
     """<spec>_RA.tla: the order table extracted from the code (labels never observed keep the value of OrdCode)"""
     ex = []
     amb = []
@@ -121,15 +121,15 @@ def ord_module(spec, tab):
             amb.append((lab, sorted(vals)))
         ex.append('!.%s = "%s"' % (lab, v))
     body = '[OrdCode EXCEPT %s]' % ', '.join(ex) if ex else 'OrdCode'
-    return '---- MODULE %s_RA ----\nEXTENDS %s\nOrdX == %s\n====\n' % (spec, spec, body), amb
+    return '---- MODULE %s_RA ----\nEXTENDS %s\nOrdX == %s\n%s====\n' % (spec, spec, body, extra), amb
 
 
-def toggle_module(spec, tab, weaken):
+def toggle_module(spec, tab, weaken, extra=''):
     """as ord_module, with some labels weakened (mechanism toggle)"""
     t2 = {k: set(v) for k, v in tab.items()}
     for lab, o in weaken.items():
         t2[lab] = {o}
-    txt, _ = ord_module(spec, t2)
+    txt, _ = ord_module(spec, t2, extra)
     return txt
 
 
@@ -358,8 +358,69 @@ def run(ctx):
             jobs.append(lambda nm=nm, hdt=hdt: tlc_mc(ctx, 'ra_toggle_hpdyn_' + nm, 'HPDynamic_RA', dict(hd_ra, Ord='<-OrdX'), invariants=INV_HDW, constraints=['MsgBound5'],
                                                         workers=3, expect='violation', extra_files={'HPDynamic_RA.tla': hdt}, tmo=1200))
 
+    def _sec_9():
+        # ---------------- hazard_eras, generic_epoch_based, quiescent_state_based: call-site order tables; the deletion of an object is a plain write
+        # that must be ordered after every access made under a guard (`delete races with an access to the object`), a reader / a reclaimer role
+        # per thread keeps the runs small (OpsOf / FlushOf / MayStart are overridable definitions of the specs)
+        HEF = 'basic_he_thread_control_block::hazard_era::'
+        he_sites = {'a_ld': ('ld', 'hazard_eras::guard_ptr::acquire', 0), 'a_era': ('ld', 'hazard_eras::guard_ptr::acquire', 1), 'a_link': ('ld', HEF + 'get_link', 0),
+                    'a_set': ('st', HEF + 'set_era', 0), 'a_fence': ('fence', HEF + 'set_era', 0), 'r_st': ('st', HEF + 'set_link', 0),
+                    'n_era': ('ld', 'hazard_eras::enable_concurrent_ptr::enable_concurrent_ptr', 0), 'x_faa': ('faa', 'hazard_eras::guard_ptr::reclaim', 0),
+                    's_fence9': ('fence', 'hazard_eras::thread_data::scan', 0), 's_ld': ('ld', HEF + 'try_get_era', 0), 's_fence10': ('fence', 'hazard_eras::thread_data::scan', 1)}
+        SITEP = ['%s;;acq0:0,tch0,rst0,acq1:1;swp0:0,swp0:0,swp1:1', '%s;;swp0:0,swp1:1;@0:acq0:0,swp0:0;swp1:1']
+        tabe, misse = site_orders(ctx, 'HazardEras', 'reclaim', [x % 'he3' for x in SITEP], he_sites)
+        tabs_all['HazardEras'] = tabe; bind['HazardEras'] = (1, 1) if not misse else (0, 1)
+        he_ra = RM.he_consts(Weak=True, MaxOps=1, NNodes=2, Ord='<-OrdX', Roles='<-RolesNoIfEq')
+        hex_ = 'RolesNoIfEq == [t \\in ThreadsDef |-> {<<o, c>> : o \\in {"acquire", "replace", "reset", "copy"}, c \\in Cells}]\n'
+        INV_R = ['Safe', 'NoDataRace']
+        jobs.append(lambda: tlc_mc(ctx, 'ra_hazarderas', 'HazardEras_RA', he_ra, invariants=INV_R, view='mcview', constraints=['MsgBound5'], workers=4, tmo=1200,
+                                   extra_files={'HazardEras_RA.tla': ord_module('HazardEras', tabe, hex_)[0]}))
+        for nm, chg in (('publishfence_acqrel', {'a_fence': 'ar'}), ('scanfence_acqrel', {'s_fence9': 'ar'}), ('retire_faa_rlx', {'x_faa': 'rlx'})):
+            jobs.append(lambda nm=nm, chg=chg: tlc_mc(ctx, 'ra_toggle_he_' + nm, 'HazardEras_RA', he_ra, invariants=INV_R, view='mcview', constraints=['MsgBound5'], workers=3,
+                                                        expect='violation', tmo=1200, extra_files={'HazardEras_RA.tla': toggle_module('HazardEras', tabe, chg, hex_)}))
+        GE = 'generic_epoch_based::thread_data::'
+        eb_sites = {'a_ld1': ('ld', 'generic_epoch_based::guard_ptr::acquire', 0), 'a_ld2': ('ld', 'generic_epoch_based::guard_ptr::acquire', 1),
+                    'c_flag': ('st', GE + 'set_critical_region_flag', 0), 'c_fence': ('fence', GE + 'set_critical_region_flag', 0),
+                    'c_ge': ('ld', GE + 'do_enter_critical', 0), 'c_le': ('ld', GE + 'do_enter_critical', 1), 's_crit': ('ld', 'scan::all_threads', 0), 's_le': ('ld', 'scan::all_threads', 0),
+                    'u_le': ('ld', GE + 'update_local_epoch', 0), 'u_stle': ('st', GE + 'update_local_epoch', 0), 'g_ld': ('ld', GE + 'update_global_epoch', 0),
+                    'g_fence': ('fence', GE + 'update_global_epoch', 0), 'g_cas': ('cas', GE + 'update_global_epoch', 0), 'l_flag': ('st', GE + 'clear_critical_region_flag', 0),
+                    'o_add': ('cas', 'orphan_list::add', 0), 'o_adopt': ('xchg', 'orphan_list::adopt', 0)}
+        tabb, missb = site_orders(ctx, 'EpochBased', 'reclaim', [x % 'ebr0' for x in SITEP], eb_sites)
+        tabs_all['EpochBased'] = tabb; bind['EpochBased'] = (1, 1) if not missb else (0, 1)
+        ROLE = ('MsgB == MsgBound(9)\nOpsX(t) == IF t = 0 THEN 2 ELSE 1\nFlushX(t) == IF t = 0 THEN %d ELSE 3\n'
+                'StartX(t, op) == IF t = 0 THEN op \\in {"acquire", "reset", "exit"%s} ELSE op \\in {"replace", "flushcycle", "exit"}\n')
+        LEAVES, STAYS = ROLE % (0, ''), ROLE % (3, ', "flushcycle"')        # the reader exits after its program / stays and takes part in the epoch protocol
+        ov = dict(OpsOf='<-OpsX', FlushOf='<-FlushX', MayStart='<-StartX', Ord='<-OrdX')
+        eb_ra = RM.eb_consts(Weak=True, MaxOps=2, NNodes=2, MaxFlush=3, MaxEpoch=6, **ov)
+        jobs.append(lambda: tlc_mc(ctx, 'ra_epochbased', 'EpochBased_RA', eb_ra, invariants=INV_R, view='mcview', constraints=['MsgB'], workers=8, tmo=1500,
+                                   extra_files={'EpochBased_RA.tla': ord_module('EpochBased', tabb, LEAVES)[0]}))
+        for nm, chg in (('enterfence_acqrel', {'c_fence': 'ar'}), ('leave_store_rlx', {'l_flag': 'rlx'}), ('no_scan_fence', {'g_fence': 'none'}))[:1 if q else 3]:
+            jobs.append(lambda nm=nm, chg=chg: tlc_mc(ctx, 'ra_toggle_eb_' + nm, 'EpochBased_RA', eb_ra, invariants=INV_R, view='mcview', constraints=['MsgB'], workers=4,
+                                                        expect='violation', tmo=1500, extra_files={'EpochBased_RA.tla': toggle_module('EpochBased', tabb, chg, LEAVES)}))
+        QS = 'quiescent_state_based::thread_data::'
+        qs_sites = {'a_ld1': ('ld', 'quiescent_state_based::guard_ptr::acquire', 0), 'a_ld2': ('ld', 'quiescent_state_based::guard_ptr::acquire', 1),
+                    'b_ldge': ('ld', QS + 'ensure_has_control_block', 0), 'b_stle': ('st', QS + 'ensure_has_control_block', 0), 'b_cas': ('cas', QS + 'ensure_has_control_block', 0),
+                    'q_ldge': ('ld', QS + 'quiescent_state', 0), 'q_ldle': ('ld', QS + 'quiescent_state', 1), 'q_stle': ('st', QS + 'quiescent_state', 0),
+                    't_ldle': ('ld', QS + 'try_update_epoch', 0), 't_ldge': ('ld', QS + 'try_update_epoch', 1), 't_fence': ('fence', QS + 'try_update_epoch', 0),
+                    't_cas': ('cas', QS + 'try_update_epoch', 0), 't_act': ('ld', 'thread_block_list::entry::is_active', 0),
+                    't_adopt': ('xchg', 'thread_block_list::adopt_abandoned_retired_nodes', 0), 'r_ldle': ('ld', QS + 'add_retired_node', 0), 'x_ldge': ('ld', QS + '~thread_data', 0),
+                    'x_abandon': ('cas', 'thread_block_list::abandon_retired_nodes', 0), 'x_release': ('st', 'thread_block_list::entry::abandon', 0)}
+        tabq, missq = site_orders(ctx, 'QSBR', 'reclaim', [x % 'qsbr' for x in SITEP], qs_sites)
+        tabs_all['QSBR'] = tabq; bind['QSBR'] = (1, 1) if not missq else (0, 1)
+        qs_ra = RM.qs_consts(Weak=True, MaxOps=2, NNodes=2, MaxFlush=3, **ov)
+        jobs.append(lambda: tlc_mc(ctx, 'ra_qsbr', 'QSBR_RA', qs_ra, invariants=INV_R, view='mcview', constraints=['MsgB'], workers=6, tmo=1500,
+                                   extra_files={'QSBR_RA.tla': ord_module('QSBR', tabq, LEAVES)[0]}))
+        for nm, chg, role in (('no_update_fence', {'t_fence': 'none'}, LEAVES), ('register_cas_rlx', {'b_cas': 'rlx'}, LEAVES), ('quiescent_store_rlx', {'q_stle': 'rlx'}, STAYS))[:1 if q else 3]:
+            jobs.append(lambda nm=nm, chg=chg, role=role: tlc_mc(ctx, 'ra_toggle_qsbr_' + nm, 'QSBR_RA', qs_ra, invariants=INV_R, view='mcview', constraints=['MsgB'], workers=4,
+                                                                   expect='violation', tmo=1500, extra_files={'QSBR_RA.tla': toggle_module('QSBR', tabq, chg, role)}))
+        if not q:
+            jobs.append(lambda: tlc_mc(ctx, 'ra_qsbr_reader_stays', 'QSBR_RA', qs_ra, invariants=INV_R, view='mcview', constraints=['MsgB'], workers=8, tmo=3000, heap='24g',
+                                       extra_files={'QSBR_RA.tla': ord_module('QSBR', tabq, STAYS)[0]}))
+            jobs.append(lambda: tlc_mc(ctx, 'ra_epochbased_reader_stays', 'EpochBased_RA', eb_ra, invariants=INV_R, view='mcview', constraints=['MsgB'], workers=8, tmo=3000, heap='24g',
+                                       extra_files={'EpochBased_RA.tla': ord_module('EpochBased', tabb, STAYS)[0]}))
+
     # the sections (binding + order extraction of one spec each) are independent: they run side by side, then all model runs
-    run_parallel([_sec_0, _sec_1, _sec_2, _sec_3, _sec_4, _sec_5, _sec_6, _sec_7, _sec_8], maxw=6)
+    run_parallel([_sec_0, _sec_1, _sec_2, _sec_3, _sec_4, _sec_5, _sec_6, _sec_7, _sec_8, _sec_9], maxw=6)
     tab = tabs_all['ChaseLev']
     run_parallel(jobs, maxw=4)
     race_sweep(ctx)
